@@ -187,3 +187,26 @@ def replay_vx(name, path):
         log(p.stderr[-4000:])
         raise EngineError("vx %s --replay exited with %s" % (name, p.returncode))
     return json.loads(lines[-1])
+
+
+def pmap(fn, items, workers=None, timeout=3600, chunksize=1):
+    """Parallel map over forked worker processes. Unlike multiprocessing.Pool.map this notices a
+    worker that died (BrokenProcessPool) or a run that exceeds `timeout` and turns it into an
+    EngineError instead of hanging."""
+    import concurrent.futures as cf
+    import multiprocessing
+    items = list(items)
+    if not items:
+        return []
+    workers = workers or min(16, os.cpu_count() or 4)
+    ctx = multiprocessing.get_context("fork")
+    ex = cf.ProcessPoolExecutor(max_workers=min(workers, len(items)), mp_context=ctx)
+    try:
+        try:
+            return list(ex.map(fn, items, timeout=timeout, chunksize=chunksize))
+        except cf.process.BrokenProcessPool as e:
+            raise EngineError("a worker process died: %s" % e)
+        except cf.TimeoutError:
+            raise EngineError("parallel map exceeded %ss" % timeout)
+    finally:
+        ex.shutdown(wait=False, cancel_futures=True)
